@@ -157,6 +157,9 @@ func (f *freader) VisibleRemoteServicesUpdated(e []api.RemoteService) {
 }
 func (f *freader) ServiceShipIDUpdate(ski string, _ string) { f.r.add("ShipID:" + name(ski)) }
 func (f *freader) ServicePairingDetailUpdate(ski string, d *api.ConnectionStateDetail) {
+	if strings.HasPrefix(name(ski), "?") {
+		return // a stray connection from another process, see recorder.add
+	}
 	// notifications raised from the delayed goroutine of HandleShipHandshakeStateUpdate are "late" notes
 	buf := make([]byte, 8192)
 	st := string(buf[:runtime.Stack(buf, false)])
